@@ -838,13 +838,25 @@ func (b *Book) ingestRestore(o *HTTPObs) {
 
 // internalSettlements counts how often a melt request marked this mint quote PAID
 // (settleQuotesInternally), taken from the seam log: the inputs of such a melt are
-// locked or spent from then on, whatever the melt's HTTP response turned out to be.
+// locked or spent from then on, whatever the melt's HTTP response turned out to be -
+// unless that very request went on to remove its inputs from the pending table.
 func (b *Book) internalSettlements(m *MintBook, q *MQRec) int {
 	n := 0
 	want := "db.UpdateMintQuoteState " + short(q.ID) + " PAID"
-	for _, c := range b.w.SeamLog {
+	for i, c := range b.w.SeamLog {
 		if c.Node == m.Name && !c.Err && c.Label == want && (b.w.Net.MeltHandlers[c.Task] || c.Task == "driver") {
-			n++
+			// ... unless the same request afterwards released its inputs again (settlement aborted:
+			// nothing was paid for this quote)
+			released := false
+			for _, d := range b.w.SeamLog[i+1:] {
+				if d.Task == c.Task && d.Node == c.Node && !d.Err && strings.HasPrefix(d.Label, "db.RemovePendingProofs") {
+					released = true
+					break
+				}
+			}
+			if !released {
+				n++
+			}
 		}
 	}
 	if q.Internal > n {
